@@ -1337,6 +1337,80 @@ def set_add(I, ref, x, st, node=None):
     return out
 
 
+# ---------------------------------------------------------------------------------------------- searching / stripping sequences of symbolic length
+def _codes(x, node=None):
+    """the element codes of a concrete str / bytes argument"""
+    if isinstance(x, str):
+        return [ord(ch) for ch in x]
+    if isinstance(x, bytes):
+        return list(x)
+    raise Unsupported("search / strip argument that is not a concrete str / bytes", node)
+
+
+def symseq_search(I, meth, recv, args, st, node=None):
+    """find / rfind / index / rindex / startswith / endswith / strip / lstrip / rstrip on a str / bytes of SYMBOLIC length with CONCRETE arguments,
+    stated exactly with quantifiers over the positions (first / last match; maximal stripped ends).  The result is a fresh term constrained by the
+    defining property, so nothing is assumed beyond Python's documented semantics of these methods."""
+    n = to_z3int(recv.length)
+    k = z3.Int(f"k!srch{next(I._fresh)}")
+
+    def at(i):
+        return recv.at(i)
+
+    if meth in ("startswith", "endswith"):
+        pat = _codes(args[0], node)
+        if len(args) > 1:
+            raise Unsupported(f"{meth} with start/end on a symbolic sequence", node)
+        m = len(pat)
+        base = z3.IntVal(0) if meth == "startswith" else n - m
+        return V(z3.And(n >= m, *[at(base + j) == pat[j] for j in range(m)]), st)
+    if meth in ("find", "rfind", "index", "rindex"):
+        pat = _codes(args[0], node)
+        m = len(pat)
+        if m == 0:
+            raise Unsupported("search for an empty pattern in a symbolic sequence", node)
+        lo = clamp_index(I, args[1] if len(args) > 1 else None, recv.length, 0, st)
+        hi = clamp_index(I, args[2] if len(args) > 2 else None, recv.length, recv.length, st)
+        lo, hi = to_z3int(lo), to_z3int(hi)
+
+        def match(i):
+            return z3.And(*[at(i + j) == pat[j] for j in range(m)])
+        r = I.fresh_int("found")
+        last = hi - m  # last start position at which the pattern still fits
+        none = z3.And(r == -1, z3.ForAll([k], z3.Implies(z3.And(lo <= k, k <= last), z3.Not(match(k)))))
+        if meth in ("find", "index"):
+            some = z3.And(lo <= r, r <= last, match(r), z3.ForAll([k], z3.Implies(z3.And(lo <= k, k < r), z3.Not(match(k)))))
+        else:
+            some = z3.And(lo <= r, r <= last, match(r), z3.ForAll([k], z3.Implies(z3.And(r < k, k <= last), z3.Not(match(k)))))
+        st.pc.append(z3.Or(none, some))
+        if meth in ("index", "rindex"):
+            out = []
+            for b, s2 in I.split(r == -1, st):
+                out += E(I, "ValueError", s2, "substring not found") if b else V(r, s2)
+            return out
+        return V(r, st)
+    if meth in ("strip", "lstrip", "rstrip"):
+        if not args or args[0] is None:
+            raise Unsupported(f"{meth}() without an explicit character set on a symbolic sequence", node)
+        cs = sorted(set(_codes(args[0], node)))
+
+        def member(c):
+            return z3.Or(*[c == v for v in cs]) if cs else z3.BoolVal(False)
+        i = I.fresh_int("strip_lo") if meth != "rstrip" else z3.IntVal(0)
+        j = I.fresh_int("strip_hi") if meth != "lstrip" else n
+        cons = [0 <= i, i <= j, j <= n]
+        if meth != "rstrip":
+            cons += [z3.ForAll([k], z3.Implies(z3.And(0 <= k, k < i), member(at(k)))), z3.Implies(i < n, z3.Not(member(at(i))))]
+        if meth != "lstrip":
+            # when everything is in the set the left cut already reached the end (i == j == n) -- Python strips the left end first
+            cons += [z3.ForAll([k], z3.Implies(z3.And(j <= k, k < n), member(at(k)))), z3.Implies(j > i, z3.Not(member(at(j - 1))))]
+        st.pc.append(z3.And(*cons))
+        off = z3.simplify(to_z3int(recv.off) + i)
+        ln = z3.simplify(j - i)
+        return V(SymSeq(recv.arr, off.as_long() if z3.is_int_value(off) else off, ln.as_long() if z3.is_int_value(ln) else ln, recv.kind), st)
+    raise Unsupported(f"{recv.kind}.{meth} on a symbolic sequence", node)
+
+
 def call_method(I, typ, meth, recv, args, kwargs, st, node=None):
     if typ == "str" and isinstance(recv, SymChar):
         if meth in ("isalpha", "isdigit", "isspace", "isalnum", "isupper", "islower", "isnumeric", "isdecimal", "isidentifier", "isprintable", "isascii"):
@@ -1349,7 +1423,11 @@ def call_method(I, typ, meth, recv, args, kwargs, st, node=None):
     if typ == "str" and isinstance(recv, (SymSeq, LoweredSeq)):
         if meth == "lower":
             return V(LoweredSeq(recv) if isinstance(recv, SymSeq) else recv, st)
+        if isinstance(recv, SymSeq) and meth in ("find", "rfind", "index", "rindex", "startswith", "endswith", "strip", "lstrip", "rstrip") and not kwargs:
+            return symseq_search(I, meth, recv, args, st, node)
         raise Unsupported(f"str.{meth} on a symbolic string", node)
+    if typ == "bytes" and isinstance(recv, SymSeq) and meth in ("find", "rfind", "index", "rindex", "startswith", "endswith", "strip", "lstrip", "rstrip") and not kwargs:
+        return symseq_search(I, meth, recv, args, st, node)
     if typ == "str" and isinstance(recv, str):
         if meth in ("lower", "upper", "strip", "startswith", "endswith", "replace", "split", "ljust", "rjust", "format",
                     "join", "isdigit", "find", "rstrip", "lstrip", "splitlines", "count", "index", "isalpha", "isspace", "isalnum", "isupper", "islower",
